@@ -10,21 +10,23 @@
 EXTENDS Integers, Sequences, FiniteSets, TLC
 
 CONSTANTS MaxLen, MaxF, Tols, Cutoffs,
-          Observed   \* set of [freqs, tol, sets] recorded from the implementation ({} in model runs)
+          Observed   \* set of pairs << <<freqs, tol>>, sets >> recorded from the implementation ({} in model runs)
 
-VARIABLES pc, freqs, tol, i, j, fset, done, indices
-vars == <<pc, freqs, tol, i, j, fset, done, indices>>
+VARIABLES pc, freqs, tol, i, j, fset, done, indices,
+          obsv     \* the implementation's recorded result for this input (<<>> if none)
+vars == <<pc, freqs, tol, i, j, fset, done, indices, obsv>>
 
 Sorted(f) == \A a, b \in 1..Len(f) : a < b => f[a] <= f[b]
 SeqsUpTo(n) == UNION {[1..k -> 0..MaxF] : k \in 1..n}
-Inputs == IF Observed = {} THEN {f \in SeqsUpTo(MaxLen) : Sorted(f)} ELSE {o.freqs : o \in Observed}
-TolsUsed == IF Observed = {} THEN Tols ELSE {o.tol : o \in Observed}
+Inputs == {f \in SeqsUpTo(MaxLen) : Sorted(f)}
 
 AbsI(v) == IF v < 0 THEN -v ELSE v
 InSeq(s, v) == \E k \in 1..Len(s) : s[k] = v
 
 Init ==
-  /\ pc = "outer" /\ freqs \in Inputs /\ tol \in TolsUsed
+  /\ pc = "outer"
+  /\ IF Observed = {} THEN freqs \in Inputs /\ tol \in Tols /\ obsv = <<>>
+                       ELSE \E p \in Observed : freqs = p[1][1] /\ tol = p[1][2] /\ obsv = p[2]
   /\ i = 1 /\ j = 0 /\ fset = <<>> /\ done = <<>> /\ indices = <<>>
 
 (* for i in range(len(freqs)): if i in done: continue; else f_set=[i]; done.append(i) *)
@@ -33,7 +35,7 @@ Outer ==
   /\ IF i > Len(freqs) THEN /\ pc' = "end" /\ UNCHANGED <<i, j, fset, done, indices>>
      ELSE IF InSeq(done, i) THEN /\ i' = i + 1 /\ UNCHANGED <<pc, j, fset, done, indices>>
      ELSE /\ fset' = <<i>> /\ done' = Append(done, i) /\ j' = i + 1 /\ pc' = "inner" /\ UNCHANGED <<i, indices>>
-  /\ UNCHANGED <<freqs, tol>>
+  /\ UNCHANGED <<freqs, tol, obsv>>
 
 (* for j in range(i+1, len): if (abs(freqs[f_set] - freqs[j]) < cutoff).any(): f_set.append(j); done.append(j) *)
 Inner ==
@@ -44,7 +46,7 @@ Inner ==
                  THEN /\ fset' = Append(fset, j) /\ done' = Append(done, j)
                  ELSE UNCHANGED <<fset, done>>
             /\ j' = j + 1 /\ UNCHANGED <<pc, i, indices>>
-  /\ UNCHANGED <<freqs, tol>>
+  /\ UNCHANGED <<freqs, tol, obsv>>
 
 Next == Outer \/ Inner
 Spec == Init /\ [][Next]_vars
@@ -80,8 +82,10 @@ Zeroed(f, c) == ~(f > c)
 InvCutoff == \A c \in Cutoffs : \A f \in 0..MaxF : Zeroed(f, c) <=> f <= c
 
 (* implementation: recorded outputs (0-based in the code, 1-based here)       *)
-ImplPartition == pc = "end" => \A o \in Observed : (o.freqs = freqs /\ o.tol = tol) => ReqPartition(o.freqs, o.sets)
-ImplClasses == pc = "end" => \A o \in Observed : (o.freqs = freqs /\ o.tol = tol) => ReqClasses(o.freqs, o.tol, o.sets)
-ImplConsecutive == pc = "end" => \A o \in Observed : (o.freqs = freqs /\ o.tol = tol) => ReqConsecutive(o.sets)
-ConformsSets == pc = "end" => \A o \in Observed : (o.freqs = freqs /\ o.tol = tol) => o.sets = indices
+Seen == pc = "end" /\ obsv # <<>>
+Obs == obsv
+ImplPartition == Seen => ReqPartition(freqs, Obs)
+ImplClasses == Seen => ReqClasses(freqs, tol, Obs)
+ImplConsecutive == Seen => ReqConsecutive(Obs)
+ConformsSets == Seen => Obs = indices
 =============================================================================
